@@ -17,6 +17,10 @@ CORPUS = [
     ("struct", "SD", [("x", ("scalar", 0)), ("a", ("array", ("string",), [None], [0]))]),
     # static zero-length dimension next to a dynamic one: `if dim_len:` in gen_method_len
     ("struct", "SZ", [("x", ("scalar", 2)), ("z", ("array", ("scalar", 4), [0, None], [0, 1]))]),
+    # a struct with two dynamic fields stored in-line as the first dynamic field of an outer struct, after static fields:
+    # a constant offset is pending when the inner reference field is reached
+    ("struct", "Outer", [("a", ("scalar", 2)), ("b", ("struct", "Inner", [("n", ("scalar", 2)), ("x", ("array", ("scalar", 2), [None], [0])),
+                                                                          ("y", ("array", ("scalar", 2), [None], [0]))]))]),
 ]
 
 
@@ -161,7 +165,7 @@ def run_all(tier, seed, want=("text", "ceval")):
     fails, mism, tags, samples, hist = [], [], collections.Counter(), [], {}
     distinct = set()
     lines, expect, ctxs = [], [], []
-    types = gen_types(r, n_text)
+    types = CORPUS + gen_types(r, n_text)
     if "text" in want:
         for t in types:
             cache = {}
@@ -380,6 +384,7 @@ def run_c07(tier, seed):
             image = bytes(buf.to_bytearray(0, cap))
             lines.append("mem " + image.hex()); expect.append(f"ok {cap}"); ctxs.append(ctx)
             calls = []
+            setter_recs = []
             cname = cls.__name__
             o0, size = int(obj._offset), int(obj._size)
             for steps, leaf in paths(t):
@@ -406,6 +411,7 @@ def run_c07(tier, seed):
                             continue
                         evals += 1
                         tags["c07.set"] += 1
+                        setter_recs.append((fn, kw, cur, leaf))
                         after = bytes(buf.to_bytearray(0, cap))
                         a = pv["addr"]
                         want = before[:a] + vb + before[a + len(vb):]
@@ -420,6 +426,29 @@ def run_c07(tier, seed):
                         except Exception as ex:
                             fails.append(common.Failure("oracle", "C07:reread-fails", f"{fn}{kw}: {ex}", c2))
                         calls.append((fn, kind, idx, leaf))
+            # ---- after the buffer has grown (storage relocated) a setter must still hit the element in the CURRENT storage
+            if setter_recs:
+                buf.allocate(buf.capacity + 16)
+                cap2 = buf.capacity
+                for fn, kw, cur, leaf in setter_recs[:3]:
+                    dt = T.scalars()[leaf[1]]._dtype
+                    try:
+                        pv = py_view(cur, leaf, cache)
+                        v = new_scalar(leaf, r)
+                        vb = np.array([v], dtype=dt).tobytes()
+                        before = bytes(buf.to_bytearray(0, cap2))
+                        getattr(kctx.kernels, fn)(obj=obj, value=v, **kw)
+                        after = bytes(buf.to_bytearray(0, cap2))
+                    except Exception as ex:
+                        fails.append(common.Failure("oracle", "C07:set-call-fails:after-growth", f"{fn}{kw}: {type(ex).__name__} {str(ex)[:200]}", ctx))
+                        continue
+                    evals += 1
+                    tags["c07.set.after-growth"] += 1
+                    a = pv["addr"]
+                    want = before[:a] + vb + before[a + len(vb):]
+                    if after != want:
+                        ch = [i for i in range(cap2) if before[i] != after[i]]
+                        fails.append(common.Failure("oracle", "C07:set-wrong-bytes:after-growth", f"{fn}{kw}(value={v}) on {s[:200]} after the buffer grew to {cap2} bytes: bytes changed at {ch[:12]} of the current storage, the element is at [{a},{a + len(vb)}) and should hold {vb.hex()} (stale storage written?)", ctx))
             # the image changed by the setters: resend before sanitizer stage; accesses were computed on the first image
             if n_san > 0 and calls:
                 n_san -= 1
@@ -445,7 +474,11 @@ def run_c07(tier, seed):
                     fails.append(common.Failure("oracle", "C07:access-misaligned", f"{c['fn']} idx {c['idx']} on {c['type'][:200]}: {w}-byte access at {a - c['obj_offset']} from the object start", c))
         elif e != g:
             mism.append(common.Failure("tie", "capi-tie:" + c["op"], f"{l[:100]}: implementation `{e}` model `{g}`", c))
-    return {"failures": fails, "mismatches": mism, "lines": len(lines), "distinct": evals, "tags": dict(tags),
+    # the IR the C07 theorems are about must be the IR of the real generator: exact text of _gen_c_api() for these and random types
+    tx = run_all(tier, seed, want=("text",))
+    mism.extend(tx["mismatches"])
+    tags.update({"text.types": tx["tags"].get("text.types", 0)})
+    return {"failures": fails, "mismatches": mism, "lines": len(lines) + tx["lines"], "distinct": evals, "tags": dict(tags),
             "samples": samples + [l[:200] for l in lines if l.startswith("acc")][:4], "evals": evals}
 
 
